@@ -547,8 +547,16 @@ fn c14_powf_sign(ctx: &mut Ctx) {
         }
     };
     // integer exponent: small, large below 2^53, or hi = m*2^k with the units digit in lo
-    let y = match ctx.weighted(&[3, 3, 5]) {
+    let y = match ctx.weighted(&[3, 3, 5, 3]) {
         0 => Dd::new(ctx.range(-40, 40) as f64, 0.0),
+        3 => {
+            // whole numbers at the limits of the integer types an implementation may cast to
+            ctx.label("exponent:integer-type-limit");
+            const K: [i64; 11] = [7, 8, 15, 16, 24, 31, 32, 52, 53, 63, 64];
+            let k = K[ctx.below(11) as usize];
+            let v = pow2_f64(k) + ctx.range(-2, 2) as f64;
+            Dd::new(if ctx.flag() { -v } else { v }, 0.0)
+        }
         1 => {
             let bits = ctx.range(1, 53) as u32;
             let v = (ctx.word() >> (64 - bits)) as f64;
@@ -639,7 +647,12 @@ fn preimage(ctx: &mut Ctx, which: u32) -> Dd {
     let h = oracle::Hp::new(256);
     let quarter = |ctx: &mut Ctx, lo: i64, hi: i64| -> Big {
         let k = ctx.range(lo, hi);
-        let base = if ctx.flag() { Big::from_i64(k).mul_pow2(-2) } else { Big::from_i64(k).mul_pow2(-7) };
+        let base = match ctx.below(3) {
+            0 => Big::from_i64(k).mul_pow2(-2),
+            1 => Big::from_i64(k).mul_pow2(-7),
+            // half-way between two nodes of the 1/128 grid, over the whole range of the argument
+            _ => Big::from_i64((ctx.range(lo * 64, hi * 64)) | 1).mul_pow2(-8),
+        };
         let d = match ctx.below(4) {
             0 => Big::zero(),
             1 => Big::pow2(-ctx.range(40, 110)),
